@@ -28,13 +28,20 @@ type HitReval struct {
 	Gets       int    `json:"gets"`
 	LifetimeMs int    `json:"lifetime_ms"`
 	Len        int    `json:"len"`
+	Raw304     string `json:"raw_304,omitempty"` // "" | len0 | typed: the origin's 304s carry a Content-Length (and Content-Type) of their own
 }
 
 var subHitReval = ev.Register("hit-vs-revalidate",
-	"4-12 clients issue 20-80 GETs each for one resource whose lifetime is 1-5 ms (so hits, expiries and 304 revalidations of the same entry interleave all the time; the origin never changes the resource); oracle: every answer is a 200 with the complete body and the resource's ETag, the origin is only ever asked conditionally after the first fetch; non-trivial = both hits and revalidations occurred; distinct by case",
+	"4-12 clients issue 20-80 GETs each for one resource whose lifetime is 1-5 ms (so hits, expiries and 304 revalidations of the same entry interleave all the time; the origin never changes the resource; its 304s are net/http's or hand-written ones carrying a Content-Length/Content-Type of their own); oracle: every answer is a 200 with the complete body, the resource's ETag and media type, the origin is only ever asked conditionally after the first fetch; non-trivial = both hits and revalidations occurred; distinct by case",
 	func(c HitReval, o *ev.Obs) *ev.Failure {
 		site := origin.NewSite()
 		v := origin.Version{Ver: 1, Len: c.Len, ETag: `"hr-1"`}
+		switch c.Raw304 {
+		case "len0":
+			v.Raw304 = []origin.HV{{K: "Content-Length", V: "0"}}
+		case "typed":
+			v.Raw304 = []origin.HV{{K: "Content-Length", V: "7"}, {K: "Content-Type", V: "text/x-of-the-304"}}
+		}
 		site.Set("/h", "hr", v)
 		org := origin.New(site.Handler())
 		defer org.Close()
@@ -54,10 +61,12 @@ var subHitReval = ev.Register("hit-vs-revalidate",
 					mu.Lock()
 					switch {
 					case fail != nil:
-					case err != nil || resp.ReadErr != nil:
+					case err != nil:
 						fail = ev.Failf("hitreval.no-response", "client %d get %d: %v", ci, g, err)
-					case resp.Status != http.StatusOK || !bytes.Equal(resp.Body, want) || resp.Header.Get("ETag") != v.ETag:
-						fail = ev.Failf("hitreval.wrong-answer", "client %d get %d: status %d, %d body bytes (want 200, %d), ETag %q, X-Cache %q", ci, g, resp.Status, len(resp.Body), len(want), resp.Header.Get("ETag"), resp.Header.Get("X-Cache"))
+					case resp.ReadErr != nil:
+						fail = ev.Failf("hitreval.body-cut", "client %d get %d: status %d, declared length %s, body ended after %d of %d bytes: %v (X-Cache %q)", ci, g, resp.Status, resp.Header.Get("Content-Length"), len(resp.Body), len(want), resp.ReadErr, resp.Header.Get("X-Cache"))
+					case resp.Status != http.StatusOK || !bytes.Equal(resp.Body, want) || resp.Header.Get("ETag") != v.ETag || resp.Header.Get("Content-Type") != "application/octet-stream":
+						fail = ev.Failf("hitreval.wrong-answer", "client %d get %d: status %d, %d body bytes (want 200, %d), ETag %q, Content-Type %q, X-Cache %q", ci, g, resp.Status, len(resp.Body), len(want), resp.Header.Get("ETag"), resp.Header.Get("Content-Type"), resp.Header.Get("X-Cache"))
 					case resp.Header.Get("X-Cache") == "HIT":
 						hits++
 					case resp.Header.Get("X-Cache") == "REVALIDATED":
@@ -90,6 +99,7 @@ func TestHitVsRevalidate(t *testing.T) {
 			Gets:       rapid.IntRange(20, 80).Draw(t, "gets"),
 			LifetimeMs: rapid.SampledFrom([]int{1, 2, 5}).Draw(t, "lifetime"),
 			Len:        rapid.SampledFrom([]int{10, 3000, 70000}).Draw(t, "len"),
+			Raw304:     rapid.SampledFrom([]string{"", "len0", "typed"}).Draw(t, "raw304"),
 		}
 	})
 }
